@@ -1,8 +1,10 @@
 (* C19 - Reconstructor output re-parses to the same tree.  Property theorems only; the model is
    Recons/Recons.v (+ Text.v), the proofs are in Recons/*_proofs.v. *)
 From Coq Require Import String Ascii List Arith Bool.
+From LV Require Import Forest.ExplicitBuild Forest.ExplicitAlgBuild.
 From LV Require Import Base.Prelude Cfg.Grammar Earley.Spec Recons.Recons Recons.Recons_proofs Recons.ReconsCheck
-     Recons.ReconsCheck_proofs Recons.Text Recons.Text_proofs Recons.Complete_proofs Recons.Link_proofs Recons.Extra_proofs Recons.Roundtrip_proofs.
+     Recons.ReconsCheck_proofs Recons.Text Recons.Text_proofs Recons.Complete_proofs Recons.Link_proofs Recons.Extra_proofs Recons.Roundtrip_proofs
+     Recons.EarleyM Recons.EarleyM_proofs.
 Import ListNotations.
 
 (* core: one node.  For a supported match u of node (Node data cs) - root rule from rules_for_root[data], inner
@@ -115,7 +117,7 @@ Print Assumptions C19_H_relex_refuted.
    filtered punctuation satisfies every hypothesis (class, supported matches), and the theorem's conclusion holds
    for the 15 tokens it writes *)
 Definition ex_case : rcase :=
-  (mkCase ["start"%string; "expr"%string; "add"%string; "PLUS"%string; "term"%string; "STAR"%string; "atom"%string; "NAME"%string; "LPAR"%string; "RPAR"%string; "neg"%string; "MINUS"%string; "call"%string; "_args"%string; "___args_star_0"%string; "COMMA"%string; "__IGNORE_0"%string] [(mkP 0 [(Nt 1)] None false); (mkP 1 [(Nt 1); (Tm 3 true); (Nt 4)] (Some 2) true); (mkP 1 [(Nt 4)] None true); (mkP 4 [(Nt 4); (Tm 5 true); (Nt 6)] None true); (mkP 4 [(Nt 6)] None true); (mkP 6 [(Tm 7 false)] None true); (mkP 6 [(Tm 8 true); (Nt 1); (Tm 9 true)] None true); (mkP 6 [(Tm 11 true); (Nt 6)] (Some 10) true); (mkP 6 [(Tm 7 false); (Tm 8 true); (Nt 13); (Tm 9 true)] (Some 12) true); (mkP 13 [(Nt 1); (Nt 14)] None false); (mkP 13 [(Nt 1)] None false); (mkP 14 [(Tm 15 true); (Nt 1)] None false); (mkP 14 [(Nt 14); (Tm 15 true); (Nt 1)] None false)] [(15, ","%string); (8, "("%string); (11, "-"%string); (3, "+"%string); (9, ")"%string); (5, "*"%string); (16, " "%string)] [(mkR 6 [(T 6)] [(Nt 6)]); (mkR 6 [(T 12)] [(Nt 12)]); (mkR 6 [(T 10)] [(Nt 10)]); (mkR 1 [(T 1)] [(Nt 1)]); (mkR 1 [(T 2)] [(Nt 2)]); (mkR 14 [(NT 1)] [(Tm 15 true); (Nt 1)]); (mkR 13 [(NT 1)] [(Nt 1)]); (mkR 6 [(NT 1)] [(Tm 8 true); (Nt 1); (Tm 9 true)]); (mkR 6 [(T 7)] [(Tm 7 false)]); (mkR 4 [(NT 6)] [(Nt 6)]); (mkR 4 [(T 4)] [(Nt 4)]); (mkR 1 [(NT 4)] [(Nt 4)]); (mkR 14 [(NT 14); (NT 1)] [(Nt 14); (Tm 15 true); (Nt 1)]); (mkR 13 [(NT 1); (NT 14)] [(Nt 1); (Nt 14)])] [[(mkR 0 [(NT 1)] [(Nt 1)])]; []; [(mkR 2 [(NT 1); (NT 4)] [(Nt 1); (Tm 3 true); (Nt 4)])]; []; [(mkR 4 [(NT 4); (NT 6)] [(Nt 4); (Tm 5 true); (Nt 6)])]; []; []; []; []; []; [(mkR 10 [(NT 6)] [(Tm 11 true); (Nt 6)])]; []; [(mkR 12 [(T 7); (NT 13)] [(Tm 7 false); (Tm 8 true); (Nt 13); (Tm 9 true)])]; []; []; []; []] true true [((Node 0 [(Node 4 [(Node 12 [(Tok 7 "f"%string); (Tok 7 "a"%string); (Node 2 [(Tok 7 "b"%string); (Tok 7 "c"%string)])]); (Node 2 [(Tok 7 "d"%string); (Node 10 [(Tok 7 "e"%string)])])])]), [(0, (CU 0 [(Nt 1)] [(CU 1 [(Nt 4)] [(CU 4 [(Nt 4)] [(CL 0)])])]), [(CC 0)]); (1, (CU 4 [(Nt 4); (Tm 5 true); (Nt 6)] [(CU 4 [(Nt 6)] [(CU 6 [(Nt 12)] [(CL 0)])]); (CU 6 [(Tm 8 true); (Nt 1); (Tm 9 true)] [(CU 1 [(Nt 2)] [(CL 1)])])]), [(CC 0); (CS "*"%string); (CS "("%string); (CC 1); (CS ")"%string)]); (2, (CU 12 [(Tm 7 false); (Tm 8 true); (Nt 13); (Tm 9 true)] [(CL 0); (CU 13 [(Nt 1); (Nt 14)] [(CU 1 [(Nt 4)] [(CU 4 [(Nt 6)] [(CU 6 [(Tm 7 false)] [(CL 1)])])]); (CU 14 [(Tm 15 true); (Nt 1)] [(CU 1 [(Nt 2)] [(CL 2)])])])]), [(CC 0); (CS "("%string); (CC 1); (CS ","%string); (CC 2); (CS ")"%string)]); (5, (CU 2 [(Nt 1); (Tm 3 true); (Nt 4)] [(CU 1 [(Nt 4)] [(CU 4 [(Nt 6)] [(CU 6 [(Tm 7 false)] [(CL 0)])])]); (CU 4 [(Nt 6)] [(CU 6 [(Tm 7 false)] [(CL 1)])])]), [(CC 0); (CS "+"%string); (CC 1)]); (8, (CU 2 [(Nt 1); (Tm 3 true); (Nt 4)] [(CU 1 [(Nt 4)] [(CU 4 [(Nt 6)] [(CU 6 [(Tm 7 false)] [(CL 0)])])]); (CU 4 [(Nt 6)] [(CU 6 [(Nt 10)] [(CL 1)])])]), [(CC 0); (CS "+"%string); (CC 1)]); (10, (CU 10 [(Tm 11 true); (Nt 6)] [(CU 6 [(Tm 7 false)] [(CL 0)])]), [(CS "-"%string); (CC 0)])], ["f"%string; "("%string; "a"%string; ","%string; "b"%string; "+"%string; "c"%string; ")"%string; "*"%string; "("%string; "d"%string; "+"%string; "-"%string; "e"%string; ")"%string], "f(a,b+c)*(d+-e)"%string)]).
+  (mkCase ["start"%string; "expr"%string; "add"%string; "PLUS"%string; "term"%string; "STAR"%string; "atom"%string; "NAME"%string; "LPAR"%string; "RPAR"%string; "neg"%string; "MINUS"%string; "call"%string; "_args"%string; "___args_star_0"%string; "COMMA"%string; "__IGNORE_0"%string] [(mkP 0 [(Nt 1)] None false); (mkP 1 [(Nt 1); (Tm 3 true); (Nt 4)] (Some 2) true); (mkP 1 [(Nt 4)] None true); (mkP 4 [(Nt 4); (Tm 5 true); (Nt 6)] None true); (mkP 4 [(Nt 6)] None true); (mkP 6 [(Tm 7 false)] None true); (mkP 6 [(Tm 8 true); (Nt 1); (Tm 9 true)] None true); (mkP 6 [(Tm 11 true); (Nt 6)] (Some 10) true); (mkP 6 [(Tm 7 false); (Tm 8 true); (Nt 13); (Tm 9 true)] (Some 12) true); (mkP 13 [(Nt 1); (Nt 14)] None false); (mkP 13 [(Nt 1)] None false); (mkP 14 [(Tm 15 true); (Nt 1)] None false); (mkP 14 [(Nt 14); (Tm 15 true); (Nt 1)] None false)] [(15, ","%string); (8, "("%string); (11, "-"%string); (3, "+"%string); (9, ")"%string); (5, "*"%string); (16, " "%string)] [(mkR 6 [(T 6)] [(Nt 6)]); (mkR 6 [(T 12)] [(Nt 12)]); (mkR 6 [(T 10)] [(Nt 10)]); (mkR 1 [(T 1)] [(Nt 1)]); (mkR 1 [(T 2)] [(Nt 2)]); (mkR 14 [(NT 1)] [(Tm 15 true); (Nt 1)]); (mkR 13 [(NT 1)] [(Nt 1)]); (mkR 6 [(NT 1)] [(Tm 8 true); (Nt 1); (Tm 9 true)]); (mkR 6 [(T 7)] [(Tm 7 false)]); (mkR 4 [(NT 6)] [(Nt 6)]); (mkR 4 [(T 4)] [(Nt 4)]); (mkR 1 [(NT 4)] [(Nt 4)]); (mkR 14 [(NT 14); (NT 1)] [(Nt 14); (Tm 15 true); (Nt 1)]); (mkR 13 [(NT 1); (NT 14)] [(Nt 1); (Nt 14)])] [[(mkR 0 [(NT 1)] [(Nt 1)])]; []; [(mkR 2 [(NT 1); (NT 4)] [(Nt 1); (Tm 3 true); (Nt 4)])]; []; [(mkR 4 [(NT 4); (NT 6)] [(Nt 4); (Tm 5 true); (Nt 6)])]; []; []; []; []; []; [(mkR 10 [(NT 6)] [(Tm 11 true); (Nt 6)])]; []; [(mkR 12 [(T 7); (NT 13)] [(Tm 7 false); (Tm 8 true); (Nt 13); (Tm 9 true)])]; []; []; []; []] true true false [((Node 0 [(Node 4 [(Node 12 [(Tok 7 "f"%string); (Tok 7 "a"%string); (Node 2 [(Tok 7 "b"%string); (Tok 7 "c"%string)])]); (Node 2 [(Tok 7 "d"%string); (Node 10 [(Tok 7 "e"%string)])])])]), [(0, (CU 0 [(Nt 1)] [(CU 1 [(Nt 4)] [(CU 4 [(Nt 4)] [(CL 0)])])]), [(CC 0)]); (1, (CU 4 [(Nt 4); (Tm 5 true); (Nt 6)] [(CU 4 [(Nt 6)] [(CU 6 [(Nt 12)] [(CL 0)])]); (CU 6 [(Tm 8 true); (Nt 1); (Tm 9 true)] [(CU 1 [(Nt 2)] [(CL 1)])])]), [(CC 0); (CS "*"%string); (CS "("%string); (CC 1); (CS ")"%string)]); (2, (CU 12 [(Tm 7 false); (Tm 8 true); (Nt 13); (Tm 9 true)] [(CL 0); (CU 13 [(Nt 1); (Nt 14)] [(CU 1 [(Nt 4)] [(CU 4 [(Nt 6)] [(CU 6 [(Tm 7 false)] [(CL 1)])])]); (CU 14 [(Tm 15 true); (Nt 1)] [(CU 1 [(Nt 2)] [(CL 2)])])])]), [(CC 0); (CS "("%string); (CC 1); (CS ","%string); (CC 2); (CS ")"%string)]); (5, (CU 2 [(Nt 1); (Tm 3 true); (Nt 4)] [(CU 1 [(Nt 4)] [(CU 4 [(Nt 6)] [(CU 6 [(Tm 7 false)] [(CL 0)])])]); (CU 4 [(Nt 6)] [(CU 6 [(Tm 7 false)] [(CL 1)])])]), [(CC 0); (CS "+"%string); (CC 1)]); (8, (CU 2 [(Nt 1); (Tm 3 true); (Nt 4)] [(CU 1 [(Nt 4)] [(CU 4 [(Nt 6)] [(CU 6 [(Tm 7 false)] [(CL 0)])])]); (CU 4 [(Nt 6)] [(CU 6 [(Nt 10)] [(CL 1)])])]), [(CC 0); (CS "+"%string); (CC 1)]); (10, (CU 10 [(Tm 11 true); (Nt 6)] [(CU 6 [(Tm 7 false)] [(CL 0)])]), [(CS "-"%string); (CC 0)])], ["f"%string; "("%string; "a"%string; ","%string; "b"%string; "+"%string; "c"%string; ")"%string; "*"%string; "("%string; "d"%string; "+"%string; "-"%string; "e"%string; ")"%string], "f(a,b+c)*(d+-e)"%string)]).
 
 Example C19_example :
   let us := uscore_of (c_names ex_case) in
@@ -147,3 +149,101 @@ Proof.
   exact (recons_token_sound us P Hcls _ _ HM _ _ _ Hr).
 Qed.
 Print Assumptions C19_example.
+
+(* ---------------------------------------------------------------------------------------------------------------
+   Round 6: match_tree instantiated with the executable model of lark's Earley parser (Earley/Alg.v instrumented
+   with the SPPF: Forest/ExplicitAlgBuild.v) over the children list, matcher _match = cmatch, grammar
+   cfg_of (G_for data), start symbol data: Recons/EarleyM.v M_earley.  The only parameter left is `sel`, the choice
+   ForestToParseTree(resolve) makes among the derivations stored in the forest. *)
+
+(* under the decidable condition plain_roots (no name that owns rules_for_root rules is an inlined non-terminal of the
+   tree-matching grammar: every un-collapsing ?alternative and every alternative of an aliased origin has an alias)
+   EVERY match of G_for data rooted at data is a supported one - lark's ambiguity resolution cannot go wrong *)
+Theorem C19_earley_matches_supported :
+  forall (us : nat -> bool) (P : list prule), cls us P ->
+  forall data, is_nonterminal us P data = false ->
+  forall r args cs, In r (G_for us P data) -> r_origin r = data ->
+    uargs_gen (uvalid (G_for us P data)) (r_exp r) args -> leaves (UNode r args) = cs ->
+    supported us P (UNode r args) data cs.
+Proof. exact all_supported. Qed.
+Print Assumptions C19_earley_matches_supported.
+
+(* what the Earley matcher returns is a derivation of G_for data over the children (C04_A_exact_gen, hence C01) *)
+Theorem C19_M_earley_sound :
+  forall (us : nat -> bool) (P : list prule) (sel : nat -> list stree -> list (fam stree) -> option (dt stree)),
+    (forall data cs fams d, sel data cs fams = Some d ->
+       den stree (in_forest stree fams) (NSym stree data 0 (List.length cs)) [d]) ->
+  forall data cs u, M_earley us P sel (Node data cs) = Some u ->
+    exists r args, u = UNode r args /\ In r (G_for us P data) /\ r_origin r = data /\
+                   uargs_gen (uvalid (G_for us P data)) (r_exp r) args /\ leaves u = cs.
+Proof. intros us P sel Hs. exact (M_earley_sound us P sel Hs). Qed.
+Print Assumptions C19_M_earley_sound.
+
+Theorem C19_M_earley_ok :
+  forall (us : nat -> bool) (P : list prule), cls us P -> cls_extra us P -> plain_roots us P ->
+  forall (sel : nat -> list stree -> list (fam stree) -> option (dt stree)),
+    (forall data cs fams d, sel data cs fams = Some d ->
+       den stree (in_forest stree fams) (NSym stree data 0 (List.length cs)) [d]) ->
+  forall t u, ptree us P t -> M_earley us P sel t = Some u ->
+    exists data cs, t = Node data cs /\ supported us P u data cs.
+Proof. intros us P Hc Hx Hp sel Hs. exact (M_earley_ok us P Hc Hx Hp sel Hs). Qed.
+Print Assumptions C19_M_earley_ok.
+
+(* M_complete from C01 completeness: a supported match exists => the parser accepts, its forest stores that
+   derivation, and a match is returned *)
+Theorem C19_M_earley_complete :
+  forall (us : nat -> bool) (P : list prule) (sel : nat -> list stree -> list (fam stree) -> option (dt stree)),
+    (forall data cs fams d, den stree (in_forest stree fams) (NSym stree data 0 (List.length cs)) [d] ->
+       sel data cs fams <> None) ->
+  forall data cs, (exists u, supported us P u data cs) -> M_earley us P sel (Node data cs) <> None.
+Proof. intros us P sel Ht. exact (M_earley_complete us P sel Ht). Qed.
+Print Assumptions C19_M_earley_complete.
+
+(* the token-level round trip with the Earley tree matcher.  _partial: the selector hypotheses (resolution returns
+   one of the derivations the forest stores, and returns one whenever there is one) are Forest/Prio_proofs'
+   resolve_in_derivs for acyclic tree-shaped forests; for the label-keyed, possibly cyclic forests of the
+   tree-matching grammars no model of ForestToParseTree(resolve) exists in this development. *)
+Theorem C19_recons_token_roundtrip_earley_partial :
+  forall (us : nat -> bool) (P : list prule), cls us P -> cls_extra us P -> plain_roots us P ->
+  forall (sel : nat -> list stree -> list (fam stree) -> option (dt stree)),
+    (forall data cs fams d, sel data cs fams = Some d ->
+       den stree (in_forest stree fams) (NSym stree data 0 (List.length cs)) [d]) ->
+    (forall data cs fams d, den stree (in_forest stree fams) (NSym stree data 0 (List.length cs)) [d] ->
+       sel data cs fams <> None) ->
+  forall (lit : nat -> option string),
+    (forall r n, In r P -> In (Tm n true) (p_exp r) -> lit n <> None) ->
+    (forall r n fo, In r P -> In (Tm n fo) (p_exp r) ->
+                    forall r', In r' P -> p_origin r' <> n /\ p_alias r' <> Some n) ->
+  forall start pr0 ds0,
+    wf P (DNode pr0 ds0) -> p_origin pr0 = start -> ~ In start (expand1s P) -> us start = false ->
+    exists fuel toks, recon lit (M_earley us P sel) fuel (shape us (DNode pr0 ds0)) = Ok toks /\
+      parses us P start toks (shape us (DNode pr0 ds0)) /\
+      (unambiguous P start -> forall t', parses us P start toks t' -> t' = shape us (DNode pr0 ds0)).
+Proof. intros us P Hc Hx Hp sel Hs Ht. exact (recons_token_roundtrip_earley us P Hc Hx Hp sel Hs Ht). Qed.
+Print Assumptions C19_recons_token_roundtrip_earley_partial.
+
+(* full statement: the theorem above for the selector lark implements; equivalently, that a sound and total
+   selector on the model's forests exists and is the one ForestToParseTree(resolve) computes *)
+Definition C19_recons_token_roundtrip_earley_full_statement : Prop :=
+  exists sel : nat -> list stree -> list (fam stree) -> option (dt stree),
+    (forall data cs fams d, sel data cs fams = Some d ->
+       den stree (in_forest stree fams) (NSym stree data 0 (List.length cs)) [d]) /\
+    (forall data cs fams d, den stree (in_forest stree fams) (NSym stree data 0 (List.length cs)) [d] ->
+       sel data cs fams <> None).
+
+(* non-vacuity of plain_roots: a recorded run of lark on the same input with every multi-child ?alternative aliased
+   (expr/add, term/mul, atom/neg/call) satisfies class, cls_extra and plain_roots *)
+Definition ex2_case : rcase :=
+  (mkCase ["start"%string; "expr"%string; "add"%string; "PLUS"%string; "term"%string; "mul"%string; "STAR"%string; "atom"%string; "NAME"%string; "LPAR"%string; "RPAR"%string; "neg"%string; "MINUS"%string; "call"%string; "_args"%string; "___args_star_0"%string; "COMMA"%string; "__IGNORE_0"%string] [(mkP 0 [(Nt 1)] None false); (mkP 1 [(Nt 1); (Tm 3 true); (Nt 4)] (Some 2) true); (mkP 1 [(Nt 4)] None true); (mkP 4 [(Nt 4); (Tm 6 true); (Nt 7)] (Some 5) true); (mkP 4 [(Nt 7)] None true); (mkP 7 [(Tm 8 false)] None true); (mkP 7 [(Tm 9 true); (Nt 1); (Tm 10 true)] None true); (mkP 7 [(Tm 12 true); (Nt 7)] (Some 11) true); (mkP 7 [(Tm 8 false); (Tm 9 true); (Nt 14); (Tm 10 true)] (Some 13) true); (mkP 14 [(Nt 1); (Nt 15)] None false); (mkP 14 [(Nt 1)] None false); (mkP 15 [(Tm 16 true); (Nt 1)] None false); (mkP 15 [(Nt 15); (Tm 16 true); (Nt 1)] None false)] [(16, ","%string); (9, "("%string); (12, "-"%string); (3, "+"%string); (10, ")"%string); (6, "*"%string); (17, " "%string)] [(mkR 7 [(T 7)] [(Nt 7)]); (mkR 7 [(T 13)] [(Nt 13)]); (mkR 7 [(T 11)] [(Nt 11)]); (mkR 4 [(T 4)] [(Nt 4)]); (mkR 4 [(T 5)] [(Nt 5)]); (mkR 1 [(T 1)] [(Nt 1)]); (mkR 1 [(T 2)] [(Nt 2)]); (mkR 15 [(NT 1)] [(Tm 16 true); (Nt 1)]); (mkR 14 [(NT 1)] [(Nt 1)]); (mkR 7 [(NT 1)] [(Tm 9 true); (Nt 1); (Tm 10 true)]); (mkR 7 [(T 8)] [(Tm 8 false)]); (mkR 4 [(NT 7)] [(Nt 7)]); (mkR 1 [(NT 4)] [(Nt 4)]); (mkR 15 [(NT 15); (NT 1)] [(Nt 15); (Tm 16 true); (Nt 1)]); (mkR 14 [(NT 1); (NT 15)] [(Nt 1); (Nt 15)])] [[(mkR 0 [(NT 1)] [(Nt 1)])]; []; [(mkR 2 [(NT 1); (NT 4)] [(Nt 1); (Tm 3 true); (Nt 4)])]; []; []; [(mkR 5 [(NT 4); (NT 7)] [(Nt 4); (Tm 6 true); (Nt 7)])]; []; []; []; []; []; [(mkR 11 [(NT 7)] [(Tm 12 true); (Nt 7)])]; []; [(mkR 13 [(T 8); (NT 14)] [(Tm 8 false); (Tm 9 true); (Nt 14); (Tm 10 true)])]; []; []; []; []] true true true [((Node 0 [(Node 5 [(Node 13 [(Tok 8 "f"%string); (Tok 8 "a"%string); (Node 2 [(Tok 8 "b"%string); (Tok 8 "c"%string)])]); (Node 2 [(Tok 8 "d"%string); (Node 11 [(Tok 8 "e"%string)])])])]), [(0, (CU 0 [(Nt 1)] [(CU 1 [(Nt 4)] [(CU 4 [(Nt 5)] [(CL 0)])])]), [(CC 0)]); (1, (CU 5 [(Nt 4); (Tm 6 true); (Nt 7)] [(CU 4 [(Nt 7)] [(CU 7 [(Nt 13)] [(CL 0)])]); (CU 7 [(Tm 9 true); (Nt 1); (Tm 10 true)] [(CU 1 [(Nt 2)] [(CL 1)])])]), [(CC 0); (CS "*"%string); (CS "("%string); (CC 1); (CS ")"%string)]); (2, (CU 13 [(Tm 8 false); (Tm 9 true); (Nt 14); (Tm 10 true)] [(CL 0); (CU 14 [(Nt 1); (Nt 15)] [(CU 1 [(Nt 4)] [(CU 4 [(Nt 7)] [(CU 7 [(Tm 8 false)] [(CL 1)])])]); (CU 15 [(Tm 16 true); (Nt 1)] [(CU 1 [(Nt 2)] [(CL 2)])])])]), [(CC 0); (CS "("%string); (CC 1); (CS ","%string); (CC 2); (CS ")"%string)]); (5, (CU 2 [(Nt 1); (Tm 3 true); (Nt 4)] [(CU 1 [(Nt 4)] [(CU 4 [(Nt 7)] [(CU 7 [(Tm 8 false)] [(CL 0)])])]); (CU 4 [(Nt 7)] [(CU 7 [(Tm 8 false)] [(CL 1)])])]), [(CC 0); (CS "+"%string); (CC 1)]); (8, (CU 2 [(Nt 1); (Tm 3 true); (Nt 4)] [(CU 1 [(Nt 4)] [(CU 4 [(Nt 7)] [(CU 7 [(Tm 8 false)] [(CL 0)])])]); (CU 4 [(Nt 7)] [(CU 7 [(Nt 11)] [(CL 1)])])]), [(CC 0); (CS "+"%string); (CC 1)]); (10, (CU 11 [(Tm 12 true); (Nt 7)] [(CU 7 [(Tm 8 false)] [(CL 0)])]), [(CS "-"%string); (CC 0)])], ["f"%string; "("%string; "a"%string; ","%string; "b"%string; "+"%string; "c"%string; ")"%string; "*"%string; "("%string; "d"%string; "+"%string; "-"%string; "e"%string; ")"%string], "f(a,b+c)*(d+-e)"%string)]).
+
+Example C19_plain_roots_example :
+  let us := uscore_of (c_names ex2_case) in let P := c_rules ex2_case in
+  check_case ex2_case = true /\ cls us P /\ cls_extra us P /\ plain_roots us P.
+Proof.
+  intros us P.
+  split; [vm_compute; reflexivity|].
+  split; [apply class_b_sound; vm_compute; reflexivity|].
+  split; [apply extra_b_sound; vm_compute; reflexivity|].
+  apply plain_roots_b_sound; vm_compute; reflexivity.
+Qed.
+Print Assumptions C19_plain_roots_example.
